@@ -198,17 +198,18 @@ def generate(rng, tier="quick"):
                            rng.choice([t for t in range(n) if t != th2]), rng.random() < 0.5])
             more.append({"mode": "preempt", "fractions": [], "first": th, "quantum": 0, "site_fractions": sp})
     return {"property": PROPERTY, "worlds": worlds, "actors": actors, "schedule": schedule,
-            "more_schedules": more, "requests": rng.random() < 0.3}
+            "more_schedules": more, "requests": rng.random() < 0.3, "share_instances": rng.random() < 0.2}
 
 
 # --------------------------------------------------------------------------- execution (children)
 class Stepper(object):
     """Runs one actor's program in micro-steps: one next(), one finishing action, or one whole op."""
 
-    def __init__(self, actor, program, instances):
+    def __init__(self, actor, program, instances, share_instances=False):
         self.actor = actor
         self.program = program
         self.instances = instances
+        self.share_instances = share_instances
         self.pc = 0
         self.task = None
         self.phase = None
@@ -252,7 +253,8 @@ class Stepper(object):
                 self._complete(out)
                 return "whole:" + kind
             a.collab.begin(op.get("collab"))
-            inst = copy.deepcopy(self.instances[op["inst"]])
+            # (optionally) the very same instance OBJECT is validated by several validators at once
+            inst = self.instances[op["inst"]] if self.share_instances else copy.deepcopy(self.instances[op["inst"]])
             self.task = IterTask(a, inst)
             self.phase = "iter"
         t = self.task
@@ -490,7 +492,7 @@ def exec_alone(arg):
     spec["share_root_with"] = None
     one["actors"] = [spec]
     actors = build_actors(one, router)
-    st = Stepper(actors[0], spec["program"], scn["worlds"][0]["instances"])
+    st = Stepper(actors[0], spec["program"], scn["worlds"][0]["instances"], scn.get("share_instances", False))
     lines = 0
     hist = {}
     if scn["schedule"]["mode"] == "preempt":
@@ -511,7 +513,8 @@ def exec_inter(scn):
     router = Router().install(scn.get("requests", False))
     actors = build_actors(scn, router)
     instances = scn["worlds"][0]["instances"]
-    steppers = [Stepper(a, scn["actors"][i]["program"], instances) for i, a in enumerate(actors)]
+    steppers = [Stepper(a, scn["actors"][i]["program"], instances, scn.get("share_instances", False))
+                for i, a in enumerate(actors)]
     stats = {}
     states = []
     trace = []
